@@ -854,44 +854,30 @@ class ServiceFacts:
         return sites > 0
 
     def _path_excludes(self, fn: FuncInfo, recv: ast.AST, node: ast.AST) -> bool:
-        """pairwise version check: the path conditions leading to the access exclude a service-typed receiver"""
-        if not (isinstance(recv, ast.Name) and recv.id in ("a", "b") and fn.params[:2] == ["a", "b"]):
+        """pairwise version check (and the private helpers only it calls): abstractly evaluated over every pair of minor versions,
+        services included, it never asks a service type for its layout (decided in c11)"""
+        if fn.module.name != "pydsdl._namespace":
             return False
-        from ..decide import f_and, f_eval, f_not, paths_of, valuations, f_atoms
-        import copy
+        root = "pydsdl._namespace._ensure_minor_version_compatibility_pairwise"
+        if fn.qualname != root:
+            # a helper: every caller chain must start at the pairwise check
+            seen, work = set(), [fn.qualname]
+            while work:
+                q = work.pop()
+                if q in seen:
+                    continue
+                seen.add(q)
+                callers = [c for c, edges in self.g.edges.items() if q in edges]
+                if not callers:
+                    return False
+                for c in callers:
+                    if c != root:
+                        if not c.split(".")[-1].startswith("_") or c == q:
+                            return False
+                        work.append(c)
+        from .c11 import pairwise_never_asks_a_service_for_its_layout
 
-        from ..core import body_without_docstring
-        from ..decide import PathEnumerator
-        from .c11 import Atomizer, _DistributeIfExp
-
-        at = Atomizer(self.ctx, fn)
-        target = norm(node)
-        try:
-            body = [_DistributeIfExp().visit(copy.deepcopy(st)) for st in body_without_docstring(fn.node)]
-            for p in PathEnumerator().run(body):
-                fs = []
-                reached = False
-                for c, pol in p.conds:
-                    if isinstance(c, tuple):
-                        continue
-                    if target in norm(c):
-                        reached = True
-                        break
-                    f = at.formula(_DistributeIfExp().visit(copy.deepcopy(c)))
-                    fs.append(f if pol else f_not(f))
-                if not reached:
-                    # the access may also sit in the raise expression / events of the path
-                    if not (p.value is not None and target in norm(p.value)):
-                        continue
-                pre = f_and(*fs)
-                atoms = f_atoms(pre)
-                want = "%s_SVC" % recv.id.upper()
-                for v in valuations(atoms + ([want] if want not in atoms else [])):
-                    if v[want] and f_eval(pre, v):
-                        return False
-            return True
-        except AnalysisError:
-            return False
+        return pairwise_never_asks_a_service_for_its_layout(self.ctx)
 
     def _derived_from(self, fn: FuncInfo, recv: ast.AST, attr: str) -> bool:
         """receiver is an element/variable of a sequence built as `[f.<attr> for f in ...]` passed as an argument."""
